@@ -199,7 +199,7 @@ pub fn run_simk(case: &SimkCase) -> Outcome {
                     size_limit = Some(s as usize);
                 }
                 if let Some(t) = specs[i].time_ns {
-                    c = c.limit_time(Duration::from_nanos(t));
+                    c = c.limit_time(if t == u64::MAX { Duration::MAX } else { Duration::from_nanos(t) });
                     time_limit = Some(t);
                 }
                 comm = Some(c);
@@ -969,6 +969,8 @@ fn reads_strategy(focus: Focus) -> BoxedStrategy<Vec<ReadSpec>> {
                 2 => (0u64..2_000_000_000).prop_map(|d| (1u64 << 31) * 1_000_000 - 1_000_000_000 + d),
                 1 => Just(30u64 * 86400 * 1_000_000_000),
                 1 => Just(TEN_YEARS_NS),
+                // the largest duration there is: a limit that cannot even be added to the clock
+                1 => Just(u64::MAX),
             ];
             let size = prop_oneof![4 => Just(None), 1 => prop_oneof![Just(1u32), Just(4096u32), 1u32..20000].prop_map(Some)];
             prop::collection::vec((size, prop_oneof![4 => t.prop_map(Some), 1 => Just(None)]), 1..8)
